@@ -15,3 +15,6 @@ Definition expected_bg_bits_f32 := expected_bg_bits freq_f32.
 Definition check_bg_f32 := check_bg freq_f32.
 Definition check_state_f32 := check_state freq_f32.
 Definition report_of_f32 := report_of freq_f32.
+Definition check_step_f32 := check_step freq_f32.
+Definition check_C16_f32 := check_C16 freq_f32.
+Definition obs_of_trace_f32 := obs_of_trace freq_f32.
